@@ -6,6 +6,12 @@
 use super::*;
 use crate::verif_stubs as vs;
 
+impl Entry {
+	pub(crate) fn from_u64_verif(e: u64) -> Entry {
+		Entry::from_u64(e)
+	}
+}
+
 pub(crate) fn mk_table(col: u8, bits: u8) -> IndexTable {
 	IndexTable {
 		id: TableId::new(col, bits),
